@@ -65,5 +65,11 @@ def stages(tier, rng, only=None):
         [ac.cyclic_dataset(rng, 3, 5, incomplete=k % 3 != 0) for k in range(150 if tier == "quick" else 1500)]
         + [ac.two_cycles(rng) for _ in range(6 if tier == "quick" else 40)]
         + [ac.cycle_plus(rng) for _ in range(40 if tier == "quick" else 400)], sch, 1), _nt))
+    def bench():
+        cs = ac.cases(g[::97], [c for c in algorun.ALL_CONFIGS if not c.startswith("Exact")], sch, flags=(1,), all_schemes=True)
+        for c in cs:
+            c["bench"] = 1
+        return cs
+    out.append(ac.stage("bench_mode", PID, bench, _nt))
     out += extras_common.c14_stages(tier, rng)      # specified behaviour outside the listed properties (drift only)
     return [s for s in out if not only or s.name == only]
